@@ -29,6 +29,10 @@ def run(ctx):
     _r9(ctx)
     _r10(ctx)
     _r11(ctx)
+    # a panic in the task that serves a TCP upstream stalls every query on that connection: the oneshot replies it unwraps are
+    # safe only while their receivers are awaited without a deadline (the rule is C05's side rule S4, evaluated here as well)
+    from . import c05
+    c05.side_rules_4(ctx, cg)
     # shared clause: an upstream reply reaches the query it answers (waiters keyed by query id)
     ctx.include("C03", rules=("R8", "R3"))
 
